@@ -6,6 +6,8 @@ import (
 	"reflect"
 
 	"github.com/gogo/protobuf/gogoproto"
+	gogoproto2 "github.com/gogo/protobuf/proto"
+	gogotest "github.com/gogo/protobuf/proto/test_proto"
 	gogodesc "github.com/gogo/protobuf/protoc-gen-gogo/descriptor"
 	"google.golang.org/protobuf/proto"
 	"google.golang.org/protobuf/reflect/protodesc"
@@ -81,6 +83,7 @@ const (
 	c12MsgLegacy
 	c12MsgNonMsg
 	c12MsgNil
+	c12MsgGogoDefaults // a gogo message whose extensions declare proto2 defaults
 	c12MsgCount
 )
 
@@ -89,6 +92,7 @@ const (
 	c12ExtGogo
 	c12ExtOther
 	c12ExtNil
+	c12ExtGogoDefault // a gogo extension of c12MsgGogoDefaults with [default = 42]
 	c12ExtCount
 )
 
@@ -111,6 +115,8 @@ func c12Pick() (interface{}, int, interface{}, int) {
 		m = &c11Legacy{c: &c11Counters{}}
 	case c12MsgNonMsg:
 		m = &c03Opaque{}
+	case c12MsgGogoDefaults:
+		m = &gogotest.DefaultsMessage{}
 	}
 	switch xk {
 	case c12ExtV2:
@@ -119,13 +125,38 @@ func c12Pick() (interface{}, int, interface{}, int) {
 		x = gogoproto.E_Nullable
 	case c12ExtOther:
 		x = "not a descriptor"
+	case c12ExtGogoDefault:
+		if verifNative() {
+			x = gogotest.E_DefaultInt32
+		} else {
+			// test_proto's package initialiser is not executed by the engine: the same descriptor, spelled out
+			x = &gogoproto2.ExtensionDesc{ExtendedType: (*gogotest.DefaultsMessage)(nil), ExtensionType: (*int32)(nil), Field: 203,
+				Name: "test_proto.default_int32", Tag: "varint,203,opt,name=default_int32,def=42", Filename: "test.proto"}
+		}
 	}
 	return m, mk, x, xk
 }
 
-// matching: the descriptor belongs to the message's runtime (golang v1's ExtensionDesc is the v2 type)
+// matching: the descriptor belongs to the message's runtime (golang v1's ExtensionDesc is the v2 type). Whether the
+// descriptor extends THIS message type is the runtime's business (c12Extendee), not csproto's.
 func c12Match(mk, xk int) bool {
-	return (mk == c12MsgV2 && xk == c12ExtV2) || (mk == c12MsgGogo && xk == c12ExtGogo) || (mk == c12MsgLegacy && xk == c12ExtV2)
+	return (mk == c12MsgV2 && xk == c12ExtV2) || (c12IsGogo(mk) && (xk == c12ExtGogo || xk == c12ExtGogoDefault)) || (mk == c12MsgLegacy && xk == c12ExtV2)
+}
+
+func c12IsGogo(mk int) bool { return mk == c12MsgGogo || mk == c12MsgGogoDefaults }
+
+// the descriptor extends the message's type
+func c12Extendee(mk, xk int) bool {
+	return (mk == c12MsgV2 && xk == c12ExtV2) || (mk == c12MsgGogo && xk == c12ExtGogo) || (mk == c12MsgGogoDefaults && xk == c12ExtGogoDefault)
+}
+
+// native mode, gogo pairs: csproto's answer is the owning runtime's answer - value, error and error text
+func c12NativeGogoGet(m, x, v interface{}, err error) {
+	rv, rerr := gogoproto2.GetExtension(m.(gogoproto2.Message), x.(*gogoproto2.ExtensionDesc))
+	verifAssert2((err == nil) == (rerr == nil), reflect.DeepEqual(v, rv), "native: GetExtension returns what the owning (gogo) runtime returns, declared defaults of unset extensions included")
+	if err != nil && rerr != nil {
+		verifAssert(err.Error() == rerr.Error(), "native: and the runtime's own error")
+	}
 }
 
 func c12AnyRuntimeCall() bool {
@@ -144,7 +175,7 @@ func H_C12_Has() {
 		switch mk {
 		case c12MsgV2:
 			verifAssert(verifCalled("google.golang.org/protobuf/proto.HasExtension"), "the v2 runtime answers for a v2 message")
-		case c12MsgGogo:
+		case c12MsgGogo, c12MsgGogoDefaults:
 			verifAssert(verifCalled("github.com/gogo/protobuf/proto.HasExtension"), "the gogo runtime answers for a gogo message")
 		case c12MsgLegacy:
 			verifAssert(verifCalled("github.com/golang/protobuf/proto.HasExtension"), "the v1 runtime answers for a v1 message")
@@ -167,11 +198,16 @@ func H_C12_Get() {
 		switch mk {
 		case c12MsgV2:
 			verifAssert(verifCalled("google.golang.org/protobuf/proto.GetExtension"), "v2 GetExtension")
-		case c12MsgGogo:
+		case c12MsgGogo, c12MsgGogoDefaults:
 			verifAssert(verifCalled("github.com/gogo/protobuf/proto.GetExtension"), "gogo GetExtension")
 		case c12MsgLegacy:
 			verifAssert(verifCalled("github.com/golang/protobuf/proto.GetExtension"), "v1 GetExtension")
 		}
+	} else if c12IsGogo(mk) {
+		c12NativeGogoGet(m, x, v, err)
+	} else if mk == c12MsgV2 {
+		rv := proto.GetExtension(m.(proto.Message), x.(protoreflect.ExtensionType))
+		verifAssert2(err == nil, reflect.DeepEqual(v, rv), "native: GetExtension returns what the owning (v2) runtime returns")
 	}
 	verifReach("end")
 }
@@ -182,6 +218,9 @@ func H_C12_Set() {
 	switch xk {
 	case c12ExtV2:
 		val = &gofeaturespb.GoFeatures{}
+	case c12ExtGogoDefault:
+		i := int32(5)
+		val = &i
 	default:
 		b := true
 		val = &b
@@ -196,10 +235,14 @@ func H_C12_Set() {
 		switch mk {
 		case c12MsgV2:
 			verifAssert(verifCalled("google.golang.org/protobuf/proto.SetExtension"), "v2 SetExtension")
-		case c12MsgGogo:
+		case c12MsgGogo, c12MsgGogoDefaults:
 			verifAssert(verifCalled("github.com/gogo/protobuf/proto.SetExtension"), "gogo SetExtension")
 		case c12MsgLegacy:
 			verifAssert(verifCalled("github.com/golang/protobuf/proto.SetExtension"), "v1 SetExtension")
+		}
+	} else if !c12Extendee(mk, xk) {
+		if mk != c12MsgLegacy {
+			verifAssert(err != nil, "native: the runtime rejects an extension declared for another message")
 		}
 	} else if mk != c12MsgLegacy {
 		if mk == c12MsgV2 {
@@ -238,7 +281,7 @@ func H_C12_Clear() {
 		switch mk {
 		case c12MsgV2:
 			verifAssert(verifCalled("google.golang.org/protobuf/proto.ClearExtension"), "v2 ClearExtension")
-		case c12MsgGogo:
+		case c12MsgGogo, c12MsgGogoDefaults:
 			verifAssert(verifCalled("github.com/gogo/protobuf/proto.ClearExtension"), "gogo ClearExtension")
 		case c12MsgLegacy:
 			verifAssert(verifCalled("github.com/golang/protobuf/proto.ClearExtension"), "v1 ClearExtension")
@@ -256,7 +299,7 @@ func H_C12_ClearAll_Range() {
 	}
 	if !verifNative() {
 		switch mk {
-		case c12MsgGogo:
+		case c12MsgGogo, c12MsgGogoDefaults:
 			verifAssert2(verifCalled("github.com/gogo/protobuf/proto.ClearAllExtensions"), verifCalled("github.com/gogo/protobuf/proto.ExtensionDescs"), "gogo runtime")
 		case c12MsgLegacy:
 			verifAssert2(verifCalled("github.com/golang/protobuf/proto.ClearAllExtensions"), verifCalled("github.com/golang/protobuf/proto.ExtensionDescs"), "v1 runtime")
@@ -281,6 +324,8 @@ func H_C12_FieldNumber() {
 		}
 	case c12ExtGogo:
 		verifAssert2(err == nil, n == 65001, "declared number of gogoproto.nullable")
+	case c12ExtGogoDefault:
+		verifAssert2(err == nil, n == 203, "declared number of test_proto.default_int32")
 	default:
 		verifAssert2(err != nil, n == 0, "anything else is an error")
 	}
